@@ -35,7 +35,8 @@ CONSTANTS
                 \* FALSE: the old behaviour without the wait (a refuted variant: two writers can share one tmp file)
     Bug         \* "none" or the name of a deliberately broken variant (must be refuted)
 
-NSav    == MaxSaves + 1
+NSav    == MaxSaves + 2                   \* + the save Close may start, + one Idle may start after its budget test
+                                          \*   (a running save ended between Idle's two reads)
 Savers  == 1..NSav
 Buckets == 1..NB
 N       == NB * RPB                       \* records = chunks of one snapshot
@@ -114,11 +115,12 @@ M_Begin(op) ==
               /\ mpc' = IF wip /\ ~(Bug = "noabort_undo" /\ op = "Undo") THEN "abort_send" ELSE StartOf(op)
               /\ mw' = IF op = "Abort" THEN {} ELSE Buckets
               /\ UNCHANGED <<nsaves, closed, dvars>>
-         [] op = "Idle" ->
+         [] op = "Idle" ->     \* the test of DirtyDB / CurrentHeightOnDisk and Save()'s test of WritingInProgress are
+                               \* separate reads: a saver may finish in between (pc "idle_save": not a hook)
               /\ IF dirty /\ last # onDisk
-                 THEN (wip \/ CanStartSave) /\ DoSave
-                 ELSE mpc' = "idle" /\ UNCHANGED <<wip, writingDone, nsaves>>
-              /\ UNCHANGED <<closed, mw, last, mapv, dirty, onDisk, abortCh, hurryCh, lastFileClosed, rlock>>
+                 THEN (wip \/ nsaves < MaxSaves) /\ mpc' = "idle_save"    \* (bound of the model, see NSav)
+                 ELSE mpc' = "idle"
+              /\ UNCHANGED <<wip, writingDone, nsaves, closed, mw, last, mapv, dirty, onDisk, abortCh, hurryCh, lastFileClosed, rlock>>
          [] op = "Save" ->
               /\ (wip \/ CanStartSave) /\ DoSave
               /\ UNCHANGED <<closed, mw, last, mapv, dirty, onDisk, abortCh, hurryCh, lastFileClosed, rlock>>
@@ -144,6 +146,10 @@ M_AbortDrain ==          \* select { case <-abortwritingnow: default: } and on i
     /\ mpc = "abort_waited"
     /\ abortCh' = 0 /\ mpc' = StartOf(mop)
     /\ UNCHANGED <<mop, nops, nsaves, closed, mw, last, mapv, dirty, onDisk, wip, hurryCh, writingDone, lastFileClosed, rlock, svars, wvars, fvars>>
+
+M_IdleSave ==            \* Idle(): return db.Save()
+    /\ mpc = "idle_save" /\ DoSave
+    /\ UNCHANGED <<mop, nops, closed, mw, last, mapv, dirty, onDisk, abortCh, hurryCh, lastFileClosed, rlock, svars, wvars, fvars>>
 
 M_SaveWait ==            \* lastFileClosed.Wait(); WritingInProgress.Set(); writingDone.Add(1)
     /\ mpc = "save_wait" /\ lastFileClosed = 0
@@ -190,15 +196,18 @@ M_UndoAdd(k) ==          \* second phase: the spent records are put back; then L
        ELSE mw' = mw \ {k} /\ mpc' = "undo_w2" /\ UNCHANGED <<last, dirty>>
     /\ UNCHANGED <<mop, nops, nsaves, closed, onDisk, wip, abortCh, hurryCh, writingDone, lastFileClosed, rlock, svars, wvars, fvars>>
 
-M_CloseStart ==          \* if DirtyDB { HurryUp(); Save() }
+M_CloseStart ==          \* if DirtyDB { HurryUp(); ...
     /\ mpc = "close_start"
-    /\ IF dirty
-       THEN /\ hurryCh' = 1
-            /\ IF wip THEN mpc' = "close_wait_saver" /\ UNCHANGED <<wip, writingDone>>
-               ELSE IF WaitWriter THEN mpc' = "save_wait" /\ UNCHANGED <<wip, writingDone>>
-               ELSE wip' = TRUE /\ writingDone' = writingDone + 1 /\ mpc' = "save_start"
-       ELSE mpc' = "close_wait_saver" /\ UNCHANGED <<hurryCh, wip, writingDone>>
-    /\ UNCHANGED <<mop, nops, nsaves, closed, mw, last, mapv, dirty, onDisk, abortCh, lastFileClosed, rlock, svars, wvars, fvars>>
+    /\ IF dirty THEN hurryCh' = 1 /\ mpc' = "close_save"
+                ELSE mpc' = "close_wait_saver" /\ UNCHANGED hurryCh
+    /\ UNCHANGED <<mop, nops, nsaves, closed, mw, last, mapv, dirty, onDisk, wip, abortCh, writingDone, lastFileClosed, rlock, svars, wvars, fvars>>
+
+M_CloseSave ==           \* ... Save() }  (its test of WritingInProgress is a separate read: pc "close_save" is not a hook)
+    /\ mpc = "close_save"
+    /\ IF wip THEN mpc' = "close_wait_saver" /\ UNCHANGED <<wip, writingDone>>
+       ELSE IF WaitWriter THEN mpc' = "save_wait" /\ UNCHANGED <<wip, writingDone>>
+       ELSE wip' = TRUE /\ writingDone' = writingDone + 1 /\ mpc' = "save_start"
+    /\ UNCHANGED <<mop, nops, nsaves, closed, mw, last, mapv, dirty, onDisk, abortCh, hurryCh, lastFileClosed, rlock, svars, wvars, fvars>>
 
 M_CloseWaitSaver ==      \* writingDone.Wait()
     /\ mpc = "close_wait_saver" /\ writingDone = 0
@@ -216,7 +225,7 @@ M_CloseRet ==
     /\ UNCHANGED <<mop, nops, nsaves, mw, dvars, svars, wvars, fvars>>
 
 MainInternal ==
-    \/ M_AbortSend \/ M_AbortWait \/ M_AbortDrain \/ M_SaveWait \/ M_SaveSpawn
+    \/ M_AbortSend \/ M_AbortWait \/ M_AbortDrain \/ M_IdleSave \/ M_SaveWait \/ M_SaveSpawn \/ M_CloseSave
     \/ \E k \in Buckets : M_CommitBucket(k) \/ M_UndoDel(k) \/ M_UndoAdd(k)
     \/ M_CommitFinish \/ M_Ret \/ M_CloseStart \/ M_CloseWaitSaver \/ M_CloseWaitFiles \/ M_CloseRet
 
